@@ -21,7 +21,7 @@ from ..paths import walk, paths, strip_gates
 from ..report import AnalysisError
 from .common import explainer_classes, field_roles, new_items
 from .drawlib import is_draw
-from .explcore import Inc, impute_args, check_guard_and_counter
+from .explcore import Inc, impute_args, check_guard_and_counter, defaults_resolution
 from .imputerlib import protected_mutations, imputer_classes, impute_params, model_field
 from .sagelib import role_fields, one, is_call_to, FEATURE_NAMES
 
@@ -34,7 +34,7 @@ META = {
                      "the default MarginalImputer evaluates the model once per inner sample (C06 COUNT)"],
     "assumptions": ["d >= 1 features, n_inner >= 1"],
 }
-MIN_INSTANCES = {"NULL": 20, "ARITY": 20, "LOSSCALL": 9, "NAMES": 4, "BUDGET": 4, "NOMUT": 4, "STORAGE": 2, "RETURN": 4}
+MIN_INSTANCES = {"DEFAULTS": 6, "NULL": 20, "ARITY": 20, "LOSSCALL": 9, "NAMES": 4, "BUDGET": 4, "NOMUT": 4, "STORAGE": 2, "RETURN": 4}
 
 ORDER_OPS = {"<", "<=", ">", ">="}
 ARITH = {"+", "-", "*", "/", "**", "%", "//"}
@@ -295,6 +295,7 @@ def check(run):
     run.need(len(classes) >= 4, f"only {len(classes)} explainers discovered")
     n_loss = 0
     for cls in classes:
+        defaults_resolution(run, prog, cls, "DEFAULTS", cls.name)
         roles, fields = role_fields(prog, cls)
         lf = one(fields, "LOSS", cls)
         imf, sf, mf = one(fields, "IMPUTER", cls), one(fields, "STORAGE", cls), one(fields, "MODEL", cls)
